@@ -57,6 +57,7 @@ type c13Obs struct {
 	LogNames  []string
 	Before    []string
 	Restarts  map[string]int // restart counter per listed process when the request returned
+	Edit      bool           // the count was changed by editing replica 0 (UpdateProcess): that replica is replaced by design
 	LogBefore map[int]string // in-memory log of replica i of w right before / right after the request
 	LogAfter  map[int]string
 	TracePos  int
@@ -130,6 +131,13 @@ func c13Scenarios(tier string) []*Scenario {
 			hist = append(hist, []req{{"w", a}, {"w", b}})
 		}
 	}
+	// scale requests after the replica count was changed by editing the process (TUI edit, POST /process:
+	// UpdateProcess with another replicas value, which carries the change out as a scale request of its own)
+	for _, a := range []int{2, 3} {
+		hist = append(hist, []req{{"w~edit", a}, {"w", a}})
+		hist = append(hist, []req{{"w~edit", a}, {"w", 1}})
+		hist = append(hist, []req{{"w~edit", a}, {"w", a + 1}})
+	}
 	if tier == "thorough" {
 		for _, a := range []int{2, 10} {
 			for _, b := range []int{1, 3, 11} {
@@ -146,6 +154,9 @@ func c13Scenarios(tier string) []*Scenario {
 				downUp := wbeh == "backoff" && len(h) == 2 && h[0].n == 1 && h[0].n < init && h[1].n >= 2 && h[1].n <= 3
 				if wbeh != "daemon" && !downUp && (len(h) > 1 || (tier != "thorough" && h[0].n > 3 && h[0].n != 10)) {
 					continue
+				}
+				if wbeh != "daemon" && strings.Contains(h[0].name+h[len(h)-1].name, "~edit") {
+					continue // (edits of a process that has no command yet are C14's subject, not driven here)
 				}
 				var ids []string
 				for _, r := range h {
@@ -208,8 +219,10 @@ func c13Scenarios(tier string) []*Scenario {
 				var calls []APICall
 				for i, r := range h {
 					r := r
+					edit := strings.HasSuffix(r.name, "~edit")
+					r.name = strings.TrimSuffix(r.name, "~edit")
 					c := APICall{Op: "fn", Name: fmt.Sprintf("scale:%s:%d", r.name, r.n), Fn: func(w *World) (string, error) {
-						o := &c13Obs{Call: "scale", N: r.n, Name: r.name}
+						o := &c13Obs{Call: "scale", N: r.n, Name: r.name, Edit: edit}
 						_, before, _, _ := c13Observe(w)
 						var bl []string
 						for k, v := range before {
@@ -230,7 +243,17 @@ func c13Scenarios(tier string) []*Scenario {
 							}
 							reqName = refReplicaName("w", curN, 0)
 						}
-						err := w.Runner.ScaleProcess(reqName, r.n)
+						var err error
+						if edit {
+							var pc *types.ProcessConfig
+							if pc, err = w.Runner.GetProcessInfo(reqName); err == nil {
+								upd := *pc
+								upd.Replicas = r.n
+								err = w.Runner.UpdateProcess(&upd)
+							}
+						} else {
+							err = w.Runner.ScaleProcess(reqName, r.n)
+						}
 						if err == nil && r.name == "w" {
 							w.Extra["c13cur"] = r.n
 						}
@@ -308,6 +331,11 @@ func c13Check(w *World, init int, wbeh string) []Violation {
 		}
 		prev := cur
 		cur = o.N
+		if o.Edit {
+			// an edit is an update of the process, not a scale request: it is part of the history (C14 judges
+			// updates); the scale requests that follow it are judged like any other
+			continue
+		}
 		// reference: a fresh load with replicas: n
 		ref, err := w.LoadYAML(fmt.Sprintf("ref-%d.yaml", o.N), c13RefYAML(wbeh, o.N))
 		if err != nil {
@@ -331,7 +359,16 @@ func c13Check(w *World, init int, wbeh string) []Violation {
 			}
 		}
 		if strings.Join(o.States, ",") != strings.Join(refNames, ",") {
-			vs = append(vs, viol("C13", "state-listing:"+class, "after scale %d->%d GetProcessesState lists %v, want %v", prev, o.N, o.States, refNames))
+			fin := ""
+			if w.Final != nil && oi == len(obs)-1 {
+				var fl []string
+				for n := range w.Final.States {
+					fl = append(fl, n)
+				}
+				sort.Strings(fl)
+				fin = fmt.Sprintf(" (at the end of the execution: %v)", fl)
+			}
+			vs = append(vs, viol("C13", "state-listing:"+class, "after scale %d->%d GetProcessesState lists %v, want %v%s", prev, o.N, o.States, refNames, fin))
 		}
 		for i := 0; i < prev && i < o.N; i++ {
 			// a surviving replica keeps the log it had (it may have grown meanwhile), whatever it is called now
